@@ -411,7 +411,31 @@ enum Case {
     /// connections between them, then health
     Seq { faults: Vec<Fault>, server: usize, traffic: usize },
     /// bytes thrown at the TLS listener, then a liveness probe of its acceptor
-    Tls { kind: String, send: Vec<Seg>, pause_ms: u64, ending: Ending },
+    Tls {
+        kind: String,
+        send: Vec<Seg>,
+        pause_ms: u64,
+        ending: Ending,
+        /// probe once more after this pause (0: no second round)
+        #[serde(default)]
+        again_ms: u64,
+    },
+    /// a well-formed handshake attempt by a rustls client whose configuration
+    /// may share nothing with the server's (ALPN, versions, cipher suites, key
+    /// exchange groups, server name), then the usual probes
+    TlsClient {
+        kind: String,
+        alpn: Vec<String>,
+        /// "any" | "tls12" | "tls13"
+        versions: String,
+        /// "any" | "tls12-rsa" (no suite usable with the server's ECDSA key) |
+        /// "chacha" | "aes256"
+        suites: String,
+        /// "any" | "secp384r1" | "x25519"
+        groups: String,
+        sni: String,
+        again_ms: u64,
+    },
     /// peers that begin a TLS handshake (a prefix of a ClientHello each), then
     /// stall with the connection OPEN while the TLS listener is probed; they
     /// are closed afterwards
@@ -813,6 +837,292 @@ fn tls_health(addr: SocketAddr) -> (u16, Vec<u8>) {
         .flatten()
         .unwrap_or_default();
     (scan_responses(&buf, false).0.first().copied().unwrap_or(0), buf)
+}
+
+/// One handshake attempt with a rustls client configured as the case says.
+/// Returns "ok" / "refused" / "config-error" / "timeout".
+fn tls_client_attempt(
+    addr: SocketAddr,
+    alpn: &[String],
+    versions: &str,
+    suites: &str,
+    groups: &str,
+    sni: &str,
+) -> &'static str {
+    use rustls::crypto::ring as prov;
+    let mut provider = prov::default_provider();
+    match suites {
+        "tls12-rsa" => provider.cipher_suites = vec![
+            prov::cipher_suite::TLS_ECDHE_RSA_WITH_AES_128_GCM_SHA256,
+            prov::cipher_suite::TLS_ECDHE_RSA_WITH_AES_256_GCM_SHA384,
+            prov::cipher_suite::TLS_ECDHE_RSA_WITH_CHACHA20_POLY1305_SHA256,
+        ],
+        "chacha" => provider.cipher_suites = vec![prov::cipher_suite::TLS13_CHACHA20_POLY1305_SHA256],
+        "aes256" => provider.cipher_suites = vec![
+            prov::cipher_suite::TLS13_AES_256_GCM_SHA384,
+            prov::cipher_suite::TLS_ECDHE_ECDSA_WITH_AES_256_GCM_SHA384,
+        ],
+        _ => {}
+    }
+    match groups {
+        "secp384r1" => provider.kx_groups = vec![prov::kx_group::SECP384R1],
+        "x25519" => provider.kx_groups = vec![prov::kx_group::X25519],
+        _ => {}
+    }
+    let vers: &[&'static rustls::SupportedProtocolVersion] = match versions {
+        "tls12" => &[&rustls::version::TLS12],
+        "tls13" => &[&rustls::version::TLS13],
+        _ => &[&rustls::version::TLS13, &rustls::version::TLS12],
+    };
+    let builder = match rustls::ClientConfig::builder_with_provider(Arc::new(provider))
+        .with_protocol_versions(vers)
+    {
+        Ok(b) => b,
+        Err(_) => return "config-error",
+    };
+    let mut cfg = builder
+        .dangerous()
+        .with_custom_certificate_verifier(Arc::new(noverify::NoVerify))
+        .with_no_client_auth();
+    cfg.alpn_protocols = alpn.iter().map(|a| a.as_bytes().to_vec()).collect();
+    let name = match rustls::pki_types::ServerName::try_from(sni.to_string()) {
+        Ok(n) => n,
+        Err(_) => return "config-error",
+    };
+    let connector = tokio_rustls::TlsConnector::from(Arc::new(cfg));
+    let fut = async move {
+        let tcp = tokio::net::TcpStream::connect(addr).await.ok()?;
+        connector.connect(name, tcp).await.ok()
+    };
+    match client_rt().block_on(async { tokio::time::timeout(Duration::from_secs(3), fut).await }) {
+        Err(_) => "timeout",
+        Ok(None) => "refused",
+        Ok(Some(_stream)) => "ok",
+    }
+}
+
+/// A ClientHello record built by hand: well-formed on the wire, whatever it
+/// offers.
+fn hello_record(
+    record_version: u16,
+    legacy_version: u16,
+    suites: &[u16],
+    compression: &[u8],
+    exts: &[(u16, Vec<u8>)],
+) -> Vec<u8> {
+    let mut body = vec![];
+    body.extend_from_slice(&legacy_version.to_be_bytes());
+    body.extend((0..32u8).map(|i| i.wrapping_mul(7).wrapping_add(3))); // random
+    body.push(32);
+    body.extend((0..32u8).map(|i| i ^ 0x5a)); // legacy session id
+    body.extend_from_slice(&((suites.len() * 2) as u16).to_be_bytes());
+    for s in suites {
+        body.extend_from_slice(&s.to_be_bytes());
+    }
+    body.push(compression.len() as u8);
+    body.extend_from_slice(compression);
+    let mut e = vec![];
+    for (ty, data) in exts {
+        e.extend_from_slice(&ty.to_be_bytes());
+        e.extend_from_slice(&(data.len() as u16).to_be_bytes());
+        e.extend_from_slice(data);
+    }
+    body.extend_from_slice(&(e.len() as u16).to_be_bytes());
+    body.extend_from_slice(&e);
+    let mut hs = vec![1u8];
+    hs.extend_from_slice(&(body.len() as u32).to_be_bytes()[1..]);
+    hs.extend_from_slice(&body);
+    let mut rec = vec![0x16];
+    rec.extend_from_slice(&record_version.to_be_bytes());
+    rec.extend_from_slice(&(hs.len() as u16).to_be_bytes());
+    rec.extend_from_slice(&hs);
+    rec
+}
+fn x_u16list(v: &[u16]) -> Vec<u8> {
+    let mut o = ((v.len() * 2) as u16).to_be_bytes().to_vec();
+    for x in v {
+        o.extend_from_slice(&x.to_be_bytes());
+    }
+    o
+}
+fn x_sni(host: &str) -> Vec<u8> {
+    let mut o = ((host.len() + 3) as u16).to_be_bytes().to_vec();
+    o.push(0);
+    o.extend_from_slice(&(host.len() as u16).to_be_bytes());
+    o.extend_from_slice(host.as_bytes());
+    o
+}
+fn x_versions(v: &[u16]) -> Vec<u8> {
+    let mut o = vec![(v.len() * 2) as u8];
+    for x in v {
+        o.extend_from_slice(&x.to_be_bytes());
+    }
+    o
+}
+fn x_alpn(protos: &[&str]) -> Vec<u8> {
+    let mut l = vec![];
+    for p in protos {
+        l.push(p.len() as u8);
+        l.extend_from_slice(p.as_bytes());
+    }
+    let mut o = (l.len() as u16).to_be_bytes().to_vec();
+    o.extend_from_slice(&l);
+    o
+}
+fn x_key_share(group: u16, klen: usize) -> Vec<u8> {
+    let mut o = ((klen + 4) as u16).to_be_bytes().to_vec();
+    o.extend_from_slice(&group.to_be_bytes());
+    o.extend_from_slice(&(klen as u16).to_be_bytes());
+    o.extend((0..klen).map(|i| (i as u8).wrapping_mul(13).wrapping_add(9)));
+    o
+}
+
+/// the parts of a hello that the variants below change
+#[derive(Clone)]
+struct HelloSpec {
+    record_version: u16,
+    legacy_version: u16,
+    suites: Vec<u16>,
+    compression: Vec<u8>,
+    sni: Option<&'static str>,
+    versions: Option<Vec<u16>>,
+    groups: Vec<u16>,
+    sigalgs: Vec<u16>,
+    alpn: Option<Vec<&'static str>>,
+    key_share: Option<(u16, usize)>,
+    point_formats: Vec<u8>,
+}
+fn good_hello() -> HelloSpec {
+    HelloSpec {
+        record_version: 0x0301,
+        legacy_version: 0x0303,
+        suites: vec![0x1301, 0x1302, 0x1303, 0xc02b, 0xc02c, 0xcca9, 0xc02f, 0xc030, 0xcca8],
+        compression: vec![0],
+        sni: Some("localhost"),
+        versions: Some(vec![0x0304, 0x0303]),
+        groups: vec![0x001d, 0x0017, 0x0018],
+        sigalgs: vec![0x0403, 0x0503, 0x0804, 0x0805, 0x0806, 0x0807, 0x0401, 0x0501],
+        alpn: Some(vec!["h2", "http/1.1"]),
+        key_share: Some((0x001d, 32)),
+        point_formats: vec![0],
+    }
+}
+fn build_hello(h: &HelloSpec) -> Vec<u8> {
+    let mut exts: Vec<(u16, Vec<u8>)> = vec![];
+    if let Some(host) = h.sni {
+        exts.push((0x0000, x_sni(host)));
+    }
+    if !h.point_formats.is_empty() {
+        let mut v = vec![h.point_formats.len() as u8];
+        v.extend_from_slice(&h.point_formats);
+        exts.push((0x000b, v));
+    }
+    if !h.groups.is_empty() {
+        exts.push((0x000a, x_u16list(&h.groups)));
+    }
+    if !h.sigalgs.is_empty() {
+        exts.push((0x000d, x_u16list(&h.sigalgs)));
+    }
+    if let Some(a) = &h.alpn {
+        exts.push((0x0010, x_alpn(a)));
+    }
+    exts.push((0x0017, vec![])); // extended_master_secret
+    if let Some(v) = &h.versions {
+        exts.push((0x002b, x_versions(v)));
+        exts.push((0x002d, vec![1, 1])); // psk_key_exchange_modes
+    }
+    if let Some((g, n)) = h.key_share {
+        exts.push((0x0033, x_key_share(g, n)));
+    }
+    hello_record(h.record_version, h.legacy_version, &h.suites, &h.compression, &exts)
+}
+
+/// well-formed hellos, compatible and not, alone and followed by something
+fn hello_variants() -> Vec<(&'static str, Vec<u8>)> {
+    let g = good_hello();
+    let mut out: Vec<(&'static str, Vec<u8>)> = vec![];
+    let good = build_hello(&g);
+    out.push(("tls-hello/good", good.clone()));
+    let mut v = good.clone();
+    v.extend_from_slice(&[0x15, 0x03, 0x03, 0x00, 0x02, 0x01, 0x00]);
+    out.push(("tls-hello/good-then-close-notify", v));
+    let mut v = good.clone();
+    v.extend_from_slice(&[0x15, 0x03, 0x03, 0x00, 0x02, 0x02, 0x28]);
+    out.push(("tls-hello/good-then-fatal-alert", v));
+    let mut v = good.clone();
+    v.extend_from_slice(b"GET /health HTTP/1.1\r\nHost: localhost\r\n\r\n");
+    out.push(("tls-hello/good-then-plaintext-http", v));
+    let mut v = good.clone();
+    // an unasked, empty Certificate handshake message in the clear
+    v.extend_from_slice(&[0x16, 0x03, 0x03, 0x00, 0x07, 0x0b, 0x00, 0x00, 0x03, 0x00, 0x00, 0x00]);
+    out.push(("tls-hello/good-then-unasked-certificate", v));
+    let mut v = good.clone();
+    v.extend_from_slice(&good);
+    out.push(("tls-hello/good-twice", v));
+    let with = |f: &dyn Fn(&mut HelloSpec)| {
+        let mut h = g.clone();
+        f(&mut h);
+        build_hello(&h)
+    };
+    out.push(("tls-hello/alpn-foreign", with(&|h| h.alpn = Some(vec!["acme-tls/1", "foo"]))));
+    out.push(("tls-hello/alpn-foreign-one", with(&|h| h.alpn = Some(vec!["acme-tls/1"]))));
+    out.push(("tls-hello/alpn-empty-list", with(&|h| h.alpn = Some(vec![]))));
+    out.push(("tls-hello/alpn-absent", with(&|h| h.alpn = None)));
+    out.push(("tls-hello/alpn-h2-only", with(&|h| h.alpn = Some(vec!["h2"]))));
+    for (kind, ver) in [("tls-hello/ssl3-only", 0x0300u16), ("tls-hello/tls10-only", 0x0301), ("tls-hello/tls11-only", 0x0302)] {
+        out.push((kind, with(&|h| {
+            h.legacy_version = ver;
+            h.versions = None;
+            h.key_share = None;
+            h.suites = vec![0xc013, 0xc014, 0xc009, 0xc00a, 0x002f, 0x0035, 0x000a];
+        })));
+    }
+    out.push(("tls-hello/tls12-only-ecdsa", with(&|h| {
+        h.versions = None;
+        h.key_share = None;
+        h.suites = vec![0xc02b, 0xc02c, 0xcca9];
+    })));
+    out.push(("tls-hello/tls12-only-rsa-suites", with(&|h| {
+        h.versions = None;
+        h.key_share = None;
+        h.suites = vec![0xc02f, 0xc030, 0xcca8, 0x009c, 0x009d];
+    })));
+    out.push(("tls-hello/tls13-only", with(&|h| {
+        h.versions = Some(vec![0x0304]);
+        h.suites = vec![0x1301, 0x1302, 0x1303];
+    })));
+    out.push(("tls-hello/future-version-only", with(&|h| h.versions = Some(vec![0x0305, 0x7f1c]))));
+    out.push(("tls-hello/null-and-export-suites", with(&|h| {
+        h.suites = vec![0x0001, 0x0002, 0x003b, 0x0003, 0x0006, 0x0008, 0xc006, 0xc010];
+    })));
+    out.push(("tls-hello/unknown-suites", with(&|h| h.suites = vec![0xfafa, 0x0a0a, 0x1309])));
+    out.push(("tls-hello/scsv-only", with(&|h| h.suites = vec![0x00ff, 0x5600])));
+    out.push(("tls-hello/unknown-group", with(&|h| {
+        h.versions = Some(vec![0x0304]);
+        h.groups = vec![0x9999];
+        h.key_share = Some((0x9999, 32));
+    })));
+    out.push(("tls-hello/ffdhe-groups-only", with(&|h| {
+        h.groups = vec![0x0100, 0x0101];
+        h.key_share = Some((0x0100, 256));
+    })));
+    out.push(("tls-hello/no-key-share", with(&|h| h.key_share = None)));
+    out.push(("tls-hello/key-share-other-group", with(&|h| h.key_share = Some((0x0018, 97)))));
+    out.push(("tls-hello/key-share-bad-length", with(&|h| h.key_share = Some((0x001d, 31)))));
+    out.push(("tls-hello/no-common-sigalgs", with(&|h| h.sigalgs = vec![0x0101, 0x0201, 0x0202])));
+    out.push(("tls-hello/rsa-sigalgs-only", with(&|h| h.sigalgs = vec![0x0804, 0x0401])));
+    out.push(("tls-hello/no-sigalgs", with(&|h| h.sigalgs = vec![])));
+    out.push(("tls-hello/sni-other-host", with(&|h| h.sni = Some("other.example"))));
+    out.push(("tls-hello/sni-absent", with(&|h| h.sni = None)));
+    out.push(("tls-hello/sni-ip-literal", with(&|h| h.sni = Some("127.0.0.1"))));
+    out.push(("tls-hello/compression-deflate-only", with(&|h| h.compression = vec![1])));
+    out.push(("tls-hello/compressed-points-only", with(&|h| {
+        h.versions = None;
+        h.key_share = None;
+        h.point_formats = vec![1, 2];
+    })));
+    out.push(("tls-hello/record-version-0304", with(&|h| h.record_version = 0x0304)));
+    out
 }
 
 // ------------------------------------------------------------------ request builders
@@ -1690,7 +2000,7 @@ fn gen_tls_stalls(out: &mut Vec<Case>, rng: &mut Rng, thorough: bool) {
         cuts = (0..n).collect();
     }
     for &k in &cuts {
-        for settle_ms in if thorough { vec![60u64] } else { vec![0u64, 60] } {
+        for settle_ms in if thorough { vec![40u64] } else { vec![0u64, 40] } {
             out.push(Case::TlsStall {
                 kind: format!("tls-stalled-handshake/{}", if k == 0 { "connect-only" } else if k < 5 { "in-record-header" } else { "in-hello-body" }),
                 peers: vec![vec![lit(&hello[..k])]],
@@ -1705,7 +2015,7 @@ fn gen_tls_stalls(out: &mut Vec<Case>, rng: &mut Rng, thorough: bool) {
                 vec![lit(&hello[..k])]
             })
             .collect();
-        out.push(Case::TlsStall { kind: "tls-stalled-handshake/several-peers".to_string(), peers, settle_ms: 60 });
+        out.push(Case::TlsStall { kind: "tls-stalled-handshake/several-peers".to_string(), peers, settle_ms: 40 });
     }
     // many peers, around the round numbers a bound on pending negotiations
     // would plausibly use: each sends the 3-byte prefix 16 03 01 and stays
@@ -1718,7 +2028,7 @@ fn gen_tls_stalls(out: &mut Vec<Case>, rng: &mut Rng, thorough: bool) {
         out.push(Case::TlsStall {
             kind: format!("tls-stalled-handshake/many-peers-{}", npeers),
             peers,
-            settle_ms: 100,
+            settle_ms: 60,
         });
     }
 }
@@ -1762,9 +2072,56 @@ fn fd_headroom() -> usize {
     (r.cur as usize).saturating_sub(used)
 }
 
+/// well-formed handshakes that share nothing (or everything) with the server
+fn gen_tls_incompatible(out: &mut Vec<Case>, thorough: bool) {
+    for (kind, bytes) in hello_variants() {
+        let endings: Vec<Ending> =
+            if thorough { vec![Ending::Half, Ending::Close, Ending::Rst] } else { vec![Ending::Half] };
+        for ending in endings {
+            out.push(Case::Tls {
+                kind: kind.to_string(),
+                send: vec![lit(&bytes)],
+                pause_ms: 0,
+                ending,
+                again_ms: 30,
+            });
+        }
+        // the same hello on the plain-HTTP listeners
+        if kind == "tls-hello/good" || kind == "tls-hello/alpn-foreign" || kind == "tls-hello/tls10-only" {
+            for &sv in &PLAIN {
+                out.push(Case::Fault(fault(&format!("cat/{}-on-plain-port", kind), sv, &bytes)));
+            }
+        }
+    }
+    let c = |kind: &str, alpn: &[&str], versions: &str, suites: &str, groups: &str, sni: &str| Case::TlsClient {
+        kind: format!("tls-client/{}", kind),
+        alpn: alpn.iter().map(|a| a.to_string()).collect(),
+        versions: versions.to_string(),
+        suites: suites.to_string(),
+        groups: groups.to_string(),
+        sni: sni.to_string(),
+        again_ms: 30,
+    };
+    out.push(c("compatible", &["h2", "http/1.1"], "any", "any", "any", "localhost"));
+    out.push(c("alpn-foreign", &["acme-tls/1", "foo"], "any", "any", "any", "localhost"));
+    out.push(c("alpn-foreign-tls12", &["acme-tls/1"], "tls12", "any", "any", "localhost"));
+    out.push(c("alpn-foreign-tls13", &["foo"], "tls13", "any", "any", "localhost"));
+    out.push(c("alpn-none", &[], "any", "any", "any", "localhost"));
+    out.push(c("alpn-http11", &["http/1.1"], "any", "any", "any", "localhost"));
+    out.push(c("tls12-only", &["http/1.1"], "tls12", "any", "any", "localhost"));
+    out.push(c("tls13-only", &["http/1.1"], "tls13", "any", "any", "localhost"));
+    out.push(c("tls12-rsa-suites-only", &["http/1.1"], "tls12", "tls12-rsa", "any", "localhost"));
+    out.push(c("chacha-only", &["http/1.1"], "tls13", "chacha", "any", "localhost"));
+    out.push(c("aes256-only", &["http/1.1"], "any", "aes256", "any", "localhost"));
+    out.push(c("secp384r1-only", &["http/1.1"], "any", "any", "secp384r1", "localhost"));
+    out.push(c("x25519-only", &["http/1.1"], "any", "any", "x25519", "localhost"));
+    out.push(c("sni-other-host", &["http/1.1"], "any", "any", "any", "other.example"));
+    out.push(c("sni-ip", &["http/1.1"], "any", "any", "any", "127.0.0.1"));
+}
+
 fn gen_tls(out: &mut Vec<Case>, rng: &mut Rng, n_random: usize) {
     let mut t = |kind: &str, bytes: Vec<u8>, pause_ms: u64, ending: Ending| {
-        out.push(Case::Tls { kind: kind.to_string(), send: vec![lit(&bytes)], pause_ms, ending })
+        out.push(Case::Tls { kind: kind.to_string(), send: vec![lit(&bytes)], pause_ms, ending, again_ms: 0 })
     };
     let hello = client_hello();
     for ending in [Ending::Close, Ending::Half, Ending::Rst] {
@@ -1813,6 +2170,7 @@ fn generate(opts: &Opts) -> Vec<Case> {
     gen_sequences(&mut out, &mut rng, &pool, &lens);
     gen_tls(&mut out, &mut rng, if opts.thorough { 400 } else { 20 });
     gen_tls_stalls(&mut out, &mut rng, opts.thorough);
+    gen_tls_incompatible(&mut out, opts.thorough);
     for sv in [0usize, 1, TLS] {
         for hold_ms in if opts.thorough { vec![150u64, 250, 450] } else { vec![250] } {
             out.push(Case::AcceptErr { server: sv, hold_ms });
@@ -1997,7 +2355,65 @@ fn run_accept_err(addr: SocketAddr, server: usize, hold_ms: u64) -> (bool, Vec<u
     (filled, buf, ended)
 }
 
+/// The TLS listener currently under test.  TLS-port cases run one at a time,
+/// and a listener that no longer answers after a case is replaced by a fresh
+/// one, so that exactly the faults that take it down are judged violations
+/// (and make the replay), not the cases that merely come after them.
+struct TlsSlot {
+    server: Option<HttpServer<()>>,
+    addr: SocketAddr,
+    counter: Arc<AtomicUsize>,
+    handle: tokio::runtime::Handle,
+    restarts: usize,
+}
+/// several listeners, each with its own lane of TLS-port cases
+static TLS_SLOTS: Mutex<Vec<Arc<Mutex<TlsSlot>>>> = Mutex::new(Vec::new());
+static TLS_NEXT: AtomicUsize = AtomicUsize::new(0);
+const N_TLS_LANES: usize = 3;
+
+fn is_tls_case(c: &Case) -> bool {
+    match c {
+        Case::Tls { .. } | Case::TlsStall { .. } | Case::TlsClient { .. } => true,
+        Case::AcceptErr { server, .. } => *server == TLS,
+        _ => false,
+    }
+}
+
 fn run_case(c: &Case, addrs: &[SocketAddr], accept_errors: &[Arc<AtomicUsize>]) -> Line {
+    if !is_tls_case(c) {
+        return run_case_inner(c, addrs, accept_errors);
+    }
+    let lane = {
+        let lanes = TLS_SLOTS.lock().unwrap_or_else(|p| p.into_inner());
+        // a free lane if there is one, else the next in turn
+        let k = TLS_NEXT.fetch_add(1, Ordering::SeqCst);
+        let n = lanes.len();
+        (0..n)
+            .map(|d| lanes[(k + d) % n].clone())
+            .find(|l| l.try_lock().is_ok())
+            .unwrap_or_else(|| lanes[k % n].clone())
+    };
+    let mut g = lane.lock().unwrap_or_else(|p| p.into_inner());
+    let slot = &mut *g;
+    let mut a = addrs.to_vec();
+    a[TLS] = slot.addr;
+    let mut ae = accept_errors.to_vec();
+    ae[TLS] = slot.counter.clone();
+    let mut line = run_case_inner(c, &a, &ae);
+    if line.tags.iter().any(|t| t == "tls-dead") {
+        let (srv, counter) =
+            slot.handle.block_on(async { start_one(HandlerTaskMode::Detached, None, true) });
+        slot.addr = srv.local_addr();
+        slot.counter = counter;
+        // dropping the old server sends its close signal
+        slot.server = Some(srv);
+        slot.restarts += 1;
+        line.tags.push("tls-listener-replaced-after-this-case".to_string());
+    }
+    line
+}
+
+fn run_case_inner(c: &Case, addrs: &[SocketAddr], accept_errors: &[Arc<AtomicUsize>]) -> Line {
     match c {
         Case::AcceptErr { server, hold_ms } => {
             let before = accept_errors[*server].load(Ordering::SeqCst);
@@ -2030,6 +2446,7 @@ fn run_case(c: &Case, addrs: &[SocketAddr], accept_errors: &[Arc<AtomicUsize>]) 
                     g_n(h as u128)
                 ),
                 tags: vec![
+                    if tls && filled && (served != 200 || h != 200) { "tls-dead".to_string() } else { "accept-error".to_string() },
                     format!("kind:accept-error/{}", ["detached", "cancel", "versioned", "tls"][*server]),
                     format!("accept-error:table-filled:{}", filled),
                     format!("accept-error:logged:{}", if logged == 0 { "0".to_string() } else { ">=1".to_string() }),
@@ -2123,12 +2540,44 @@ fn run_case(c: &Case, addrs: &[SocketAddr], accept_errors: &[Arc<AtomicUsize>]) 
                 nontrivial: true,
             }
         }
-        Case::Tls { kind, send, pause_ms, ending } => {
+        Case::TlsClient { kind, alpn, versions, suites, groups, sni, again_ms } => {
+            let outcome = tls_client_attempt(addrs[TLS], alpn, versions, suites, groups, sni);
+            let (alive, probe) = tls_alive(addrs[TLS]);
+            let (h, hbytes) = tls_health(addrs[TLS]);
+            std::thread::sleep(Duration::from_millis(*again_ms));
+            let (h2, _) = tls_health(addrs[TLS]);
+            let mut tags = vec![
+                format!("kind:{}", kind),
+                format!("tls-client-handshake:{}", outcome),
+                format!("tls-alive:{}", alive),
+                format!("tls-health:{}", h),
+                format!("tls-health-again:{}", h2),
+            ];
+            if !alive || h != 200 || h2 != 200 {
+                tags.push("tls-dead".to_string());
+            }
+            Line {
+                group: "tls-client",
+                case: serde_json::to_value(c).unwrap(),
+                obs: json!({"handshake": outcome, "alive": alive, "tls_health": h, "tls_health_again": h2}),
+                coq: format!(
+                    "CTls [] EGone {} {} {} {} {}",
+                    g_bool(alive),
+                    g_bytes(&probe),
+                    g_n(h as u128),
+                    g_n(h2 as u128),
+                    g_bytes(&hbytes)
+                ),
+                tags,
+                nontrivial: true,
+            }
+        }
+        Case::Tls { kind, send, pause_ms, ending, again_ms } => {
             let f = Fault {
                 kind: kind.clone(),
                 server: TLS,
                 send: send.clone(),
-                wait: if *ending == Ending::Half { Wait::No } else { Wait::Quiet(60) },
+                wait: if *ending == Ending::Half { Wait::No } else { Wait::Quiet(25) },
                 pause_ms: *pause_ms,
                 ending: *ending,
                 malformed: false,
@@ -2141,28 +2590,50 @@ fn run_case(c: &Case, addrs: &[SocketAddr], accept_errors: &[Arc<AtomicUsize>]) 
             let (ans, end) = run_fault(&f, addrs[TLS]);
             let (alive, probe) = tls_alive(addrs[TLS]);
             let (h, hbytes) = tls_health(addrs[TLS]);
+            let h2 = if *again_ms > 0 {
+                std::thread::sleep(Duration::from_millis(*again_ms));
+                tls_health(addrs[TLS]).0
+            } else {
+                h
+            };
+            let first = ans.first().copied();
             Line {
                 group: "tls",
                 case: serde_json::to_value(c).unwrap(),
                 obs: json!({"bytes": ans.len(), "end": format!("{:?}", end), "alive": alive,
                             "answer_head": latin1(&ans), "probe_bytes": probe.len(), "tls_health": h}),
                 coq: format!(
-                    "CTls {} {} {} {} {} {}",
+                    "CTls {} {} {} {} {} {} {}",
                     g_bytes(&ans),
                     end.coq(),
                     g_bool(alive),
                     g_bytes(&probe),
                     g_n(h as u128),
+                    g_n(h2 as u128),
                     g_bytes(&hbytes)
                 ),
-                tags: vec![
-                    format!("kind:{}", kind),
-                    format!("leave:{:?}", ending),
-                    format!("end:{:?}", end),
-                    format!("tls-answer:{}", if ans.is_empty() { "silent" } else { "records" }),
-                    format!("tls-alive:{}", alive),
-                    format!("tls-health:{}", h),
-                ],
+                tags: {
+                    let mut t = vec![
+                        format!("kind:{}", kind),
+                        format!("leave:{:?}", ending),
+                        format!("end:{:?}", end),
+                        format!(
+                            "tls-answer:{}",
+                            match first {
+                                None => "silent",
+                                Some(0x15) => "alert",
+                                Some(0x16) => "handshake-records",
+                                Some(_) => "records",
+                            }
+                        ),
+                        format!("tls-alive:{}", alive),
+                        format!("tls-health:{}", h),
+                    ];
+                    if !alive || h != 200 || h2 != 200 {
+                        t.push("tls-dead".to_string());
+                    }
+                    t
+                },
                 nontrivial: true,
             }
         }
@@ -2247,6 +2718,7 @@ fn run_case(c: &Case, addrs: &[SocketAddr], accept_errors: &[Arc<AtomicUsize>]) 
                     format!("tls-alive:{}", alive),
                     format!("tls-health-while-stalled:{}/{}", h1, h2),
                     format!("tls-health:{}", h3),
+                    if h3 != 200 { "tls-dead".to_string() } else { "tls-recovered-or-fine".to_string() },
                 ],
                 nontrivial: n_held == peers.len(),
             }
@@ -2265,8 +2737,31 @@ fn main() {
         };
         raise_fd_limit();
         let runtime = rt();
-        let Servers { servers, accept_errors } = runtime.block_on(async { start_all() });
+        let Servers { mut servers, accept_errors } = runtime.block_on(async { start_all() });
         let addrs: Vec<SocketAddr> = servers.iter().map(|s| s.local_addr()).collect();
+        let tls_server = servers.pop().expect("tls server");
+        {
+            let mut lanes = TLS_SLOTS.lock().unwrap();
+            lanes.push(Arc::new(Mutex::new(TlsSlot {
+                server: Some(tls_server),
+                addr: addrs[TLS],
+                counter: accept_errors[TLS].clone(),
+                handle: runtime.handle().clone(),
+                restarts: 0,
+            })));
+            for _ in 1..N_TLS_LANES {
+                let (srv, counter) =
+                    runtime.block_on(async { start_one(HandlerTaskMode::Detached, None, true) });
+                assert_eq!(tls_health(srv.local_addr()).0, 200, "tls lane not healthy at start");
+                lanes.push(Arc::new(Mutex::new(TlsSlot {
+                    addr: srv.local_addr(),
+                    server: Some(srv),
+                    counter,
+                    handle: runtime.handle().clone(),
+                    restarts: 0,
+                })));
+            }
+        }
         // every server must be healthy before the first fault
         for (i, a) in addrs.iter().enumerate() {
             if i == TLS {
@@ -2304,6 +2799,9 @@ fn main() {
         });
         for l in results.into_inner().unwrap().into_iter() {
             emit(out, &l.expect("case not run"));
+        }
+        for lane in TLS_SLOTS.lock().unwrap().drain(..) {
+            servers.extend(lane.lock().unwrap_or_else(|p| p.into_inner()).server.take());
         }
         runtime.block_on(async {
             for s in servers {
